@@ -25,11 +25,29 @@ pub struct Step {
     /// seed the (thread-local) generator of the compiling thread first — the injected "unlucky draw"
     #[serde(default)]
     pub fastrand_seed: Option<u64>,
+    /// the clock rsass would read during this compilation: (monotonic ns, wall ns, step per reading);
+    /// None = the fixed reference clock.  Between two steps the wall clock may jump backwards.
+    #[serde(default)]
+    pub clock: Option<(u64, u64, u64)>,
+}
+
+/// The clock every reference compilation runs under.
+pub const REF_CLOCK: (u64, u64, u64) = (1_000_000, 1_700_000_000_000_000_000, 1_000);
+
+/// A clock for a non-reference compilation: other epoch, other granularity, possibly before 1970+1s.
+pub fn draw_clock(rng: &mut vcommon::Rng) -> (u64, u64, u64) {
+    let wall = match rng.below(4) {
+        0 => 0,
+        1 => 1_700_000_000_000_000_000 - rng.below(1 << 50),
+        2 => 4_102_444_800_000_000_000 + rng.below(1 << 40), // after 2100
+        _ => rng.below(1 << 62),
+    };
+    (rng.below(1 << 44), wall, *rng.pick(&[0u64, 1, 1_000, 1_000_000_000, 86_400_000_000_000]))
 }
 
 impl Step {
     pub fn plain(item: Item) -> Step {
-        Step { item, chunk: Chunking::NONE, plan: FaultPlan::default(), thread: false, subject: true, fastrand_seed: None }
+        Step { item, chunk: Chunking::NONE, plan: FaultPlan::default(), thread: false, subject: true, fastrand_seed: None, clock: None }
     }
 }
 
@@ -37,12 +55,18 @@ impl Step {
 pub struct StepResult {
     pub res: Res,
     pub delivered: usize,
+    /// how often rsass read a clock during this compilation
+    #[serde(default)]
+    pub clock_reads: u64,
 }
 
 pub fn compile_step(step: &Step) -> StepResult {
     if let Some(s) = step.fastrand_seed {
         fastrand::seed(s);
     }
+    let (m, w, st) = step.clock.unwrap_or(REF_CLOCK);
+    rsass_verif_sync::time::sim::set(m, w, st);
+    let reads0 = rsass_verif_sync::time::sim::reads();
     let it = &step.item;
     let mock = it.files.iter().map(|(k, v)| (k.clone(), Rc::new(v.clone().into_bytes()))).collect();
     let o = run_job(&Job {
@@ -55,7 +79,7 @@ pub fn compile_step(step: &Step) -> StepResult {
         chunk: step.chunk,
         budget: 200_000,
     });
-    StepResult { res: o.res, delivered: o.delivered.len() }
+    StepResult { res: o.res, delivered: o.delivered.len(), clock_reads: rsass_verif_sync::time::sim::reads() - reads0 }
 }
 
 fn run_steps(steps: &[Step], mut emit: impl FnMut(&str)) {
@@ -70,7 +94,7 @@ fn run_steps(steps: &[Step], mut emit: impl FnMut(&str)) {
                 })
                 .unwrap()
                 .join()
-                .unwrap_or(StepResult { res: Res::Panic("thread died".into()), delivered: 0 })
+                .unwrap_or(StepResult { res: Res::Panic("thread died".into()), delivered: 0, clock_reads: 0 })
         } else {
             compile_step(s)
         };
